@@ -2,9 +2,11 @@
    sequence (any cost sequence, capacity profile, flush interval, interleaving of enqueues,
    ticks and manual flushes), either generation. *)
 From Coq Require Import List ZArith Bool Lia Permutation.
+From Coq Require String.
 From RecordUpdate Require Import RecordUpdate.
 From GB Require Import Model.Allowance Model.Batcher Proofs.Tactics Proofs.C01Inv Proofs.BatcherLocal
   Proofs.BatcherLocal2 Proofs.BatcherInv2 Proofs.BatcherInv3.
+From GB Require Import Gen.Facts.
 Import ListNotations.
 Open Scope Z_scope.
 (* an operation leaves the buffer only while the cost consumed so far in the cycle is below (V2) / not above (V1) the allowance *)
@@ -56,6 +58,16 @@ Theorem C02_flush_calls_coalesce : forall c s s' o, flush_tok s = true -> step c
   flush_tok s' = true /\ loop s' = loop s /\ g_cycles s' = g_cycles s.
 Proof. exact flush_coalesces. Qed.
 Print Assumptions C02_flush_calls_coalesce.
+
+(* tie to the source (regenerated on every run by tools/facts): the default flush interval and the
+   comparison operators of the cut-off test are the ones the model uses *)
+Module Src.
+Import String.
+Theorem C02_source_constants :
+  V1_default_flushInterval = default_flush /\ V2_default_flushInterval = default_flush
+  /\ V1_cutoff_op = ">"%string /\ V2_cutoff_op = ">="%string.
+Proof. repeat split; reflexivity. Qed.
+End Src.
 
 (* non-vacuity: a cycle that hits consumed = allowance exactly (V2, capacity 30/s, 100 ms: allowance 3) *)
 Definition ex_cfg : cfg := mkCfg V2 10 false true 0 0 0 0 0 0 [mkW 0 0 0].
